@@ -551,6 +551,10 @@ def g_dec3(c):
             f.append((c.pick(f'i{i}.chan_loc', [1, 0x1FF]), 9))
         else:
             f.append((0, 1))
+    # the Dolby Atmos (JOC) extension: 7 reserved bits, flag_ec3_extension_type_a, complexity_index_type_a
+    ext = c.pick('joc_extension', [None, (1, 16), (0, 0), (1, 255)])
+    if ext is not None:
+        f += [(0, 7), (ext[0], 1), (ext[1], 8)]
     return box(b'dec3', bits(*f), c)
 
 
